@@ -174,6 +174,22 @@ where
     c.nodes.index_map().into_iter().collect()
 }
 
+/// The stored day-count convention / modifier of a `CurveDF` (crate-private fields).
+pub fn curvedf_convention<T, U>(c: &crate::curves::CurveDF<T, U>) -> crate::calendars::Convention
+where
+    T: crate::curves::CurveInterpolation,
+    U: crate::calendars::DateRoll,
+{
+    c.convention
+}
+pub fn curvedf_modifier<T, U>(c: &crate::curves::CurveDF<T, U>) -> crate::calendars::Modifier
+where
+    T: crate::curves::CurveInterpolation,
+    U: crate::calendars::DateRoll,
+{
+    c.modifier
+}
+
 /// Trace recording for conformance checking of the crate's OWN test suite: when the environment variable
 /// `RATESLIB_VERIF_TRACE` names a file, the outermost call of each hooked function appends one ndjson event
 /// (arguments, result and a projection of the object's abstract state) to it. Sequential library: the
